@@ -363,7 +363,7 @@ Proof. intros L T Rl. unfold K1. rewrite L, Rl. repeat split; auto; discriminate
 Lemma K1_elect self nd : K1 nd (start_election self nd).
 Proof. unfold K1, start_election. cbn. repeat split; auto; try lia; try discriminate. Qed.
 
-Lemma h_rv_K1 self nd t c lli llt ok : K1 nd (fst (h_rv self nd t c lli llt ok)).
+Lemma h_rv_K1 self nd t c lli llt ok : K1 nd (fst (h_rv ru self nd t c lli llt ok)).
 Proof.
   unfold h_rv. destruct (N.ltb_spec (term nd) t) as [Hlt|Hge].
   - cbn [step_down set_term_vote term]. rewrite N.eqb_refl.
@@ -385,7 +385,7 @@ Proof.
     + apply K1_same; reflexivity.
 Qed.
 
-Lemma try_advance_K1 nd : log (try_advance cfg nd) = log nd /\ term (try_advance cfg nd) = term nd /\ rl (try_advance cfg nd) = rl nd.
+Lemma try_advance_K1 nd : log (try_advance cfg ru nd) = log nd /\ term (try_advance cfg ru nd) = term nd /\ rl (try_advance cfg ru nd) = rl nd.
 Proof.
   unfold try_advance. destruct (rl nd) eqn:Er; auto. destruct (lvs nd); auto.
   match goal with |- context [if ?c then _ else _] => destruct c end; auto.
@@ -400,7 +400,7 @@ Proof.
   destruct (stale_ack_ignored ru && N.ltb t (term nd)); [apply K1_refl|].
   destruct (lvs nd) as [ls|]; [|apply K1_refl].
   destruct succ.
-  - match goal with |- K1 _ (try_advance _ ?y) => destruct (try_advance_K1 y) as [A [B C]] end.
+  - match goal with |- K1 _ (try_advance _ _ ?y) => destruct (try_advance_K1 y) as [A [B C]] end.
     apply K1_same; [rewrite A|rewrite B|rewrite C]; cbn; first [reflexivity | symmetry; exact Er | exact Er].
   - apply K1_same; cbn; first [reflexivity | symmetry; exact Er | exact Er].
 Qed.
@@ -523,6 +523,9 @@ Qed.
 Lemma init_nodes_len : length (nodes (init_sys cfg)) = n.
 Proof. unfold init_sys. cbn. rewrite map_length. unfold N_seq. apply N_seq_from_len. Qed.
 
+(* the follower's prev-entry test accepts only a matching term *)
+Hypothesis prev_sound : forall xt pt, prev_ok ru xt pt = true -> xt = pt.
+
 Theorem ci_step : forall s gl o, CI s gl -> exists gl', CI (fst (gstep cfg ru s o)) gl'.
 Proof.
   intros s gl o HC.
@@ -586,9 +589,9 @@ Proof.
     set (nd := nd_of s dst) in *.
     destruct m as [t cand lli llt|t g voter|t cand lli llt|t g voter|t ldr pi pt es lc|t succ fol mi]; cbn [deliver] in *; cbv zeta in *; fold nd in Eg |- *.
     + (* RV *)
-      destruct (h_rv dst nd t cand lli llt ok) as [nd' r] eqn:Eh.
+      destruct (h_rv ru dst nd t cand lli llt ok) as [nd' r] eqn:Eh.
       exists gl. eapply (ci_frame s gl (GDeliver k ok)); eauto.
-      * replace nd' with (fst (h_rv dst nd t cand lli llt ok)) by (rewrite Eh; reflexivity). apply h_rv_K1.
+      * replace nd' with (fst (h_rv ru dst nd t cand lli llt ok)) by (rewrite Eh; reflexivity). apply h_rv_K1.
       * intros a d t0 ldr pi pt es lc _ _ _ [E|[]]. exfalso. injection E as _ E. unfold h_rv in Eh.
         repeat match type of Eh with context [if ?c then _ else _] => destruct c end;
           try (destruct (last_info _) in Eh);
@@ -632,7 +635,7 @@ Proof.
               destruct (N.leb_spec pi (llen (log (nd_of s dst)))) as [Hle|]; [|discriminate]. split; [exact Hle|].
               rewrite nth_entry_ent_at in Elok. unfold term_at.
               destruct (ent_at (log (nd_of s dst)) (N.to_nat pi)) as [x|] eqn:Ex.
-              ** apply N.eqb_eq in Elok. cbn. congruence.
+              ** apply prev_sound in Elok. cbn. congruence.
               ** exfalso. unfold ent_at in Ex. destruct (N.to_nat pi) as [|kk] eqn:Ekk; [lia|].
                  apply nth_error_None in Ex. unfold llen in Hle. lia.
            ++ cbn. unfold nd in *. lia.
